@@ -503,3 +503,24 @@ pub fn analyze_executable(session: &CompilerSession, root: &Path) -> Analyzed {
         | Err(p) => Analyzed::Panic(p),
     }
 }
+
+/* ------------------------------------------------------------------------- */
+/* lowering                                                                  */
+/* ------------------------------------------------------------------------- */
+
+pub use zydeco_cli::BackendProgram;
+
+pub enum Lowered {
+    Ok(Box<BackendProgram>),
+    /// an error value (e.g. BuiltinLower): clean refusal
+    Refused(String),
+    Panic(PanicInfo),
+}
+
+pub fn lower(exe: ExecutableProgram) -> Lowered {
+    match catch(|| BackendProgram::lower(exe)) {
+        | Ok(Ok(b)) => Lowered::Ok(Box::new(b)),
+        | Ok(Err(e)) => Lowered::Refused(format!("{e}")),
+        | Err(p) => Lowered::Panic(p),
+    }
+}
